@@ -7,8 +7,7 @@ From Grenad.model Require Import Base Merger Sorter.
 From Grenad.proofs Require Import BaseProofs.
 Ltac Zify.zify_post_hook ::= Z.div_mod_to_equations.
 
-Fixpoint creates (evs : list sevent) : N :=
-  match evs with [] => 0 | EvCreate :: r => creates r + 1 | _ :: r => creates r end.
+(* creates (the EvCreate events of the log) is defined with the model: Sorter.creates *)
 Fixpoint peak (evs : list sevent) : N :=
   match evs with
   | [] => 0
